@@ -15,7 +15,7 @@ CLAIMS = {
  'C09': dict(text='Both renaming functions are proved equal to spec functions for every string and all eight rules; serde_derive\'s own apply_to_field/apply_to_variant (version from Cargo.lock) are lifted by the same lifter and proved equal to the same spec functions on serde\'s non-panicking domain, so ts-rs == serde for every identifier; the call sites in format_field / format_variant are checked: the rule is applied to the identifier without its r# prefix, an explicit rename wins.',
              note='Trusted: std str/char contracts (Unicode predicates uninterpreted outside ASCII), rule-name correspondence of the two rename_all parse tables, that serde uses these functions for wire names.'),
  'C10': dict(text='Precedence only: for all four attribute kinds and every field, from_attrs returns wins(ts, serde) (ts value if present, else serde value) with serde-compat on, and exactly the ts value with serde-compat off; proved for all payload values (opaque) on the lifted merge/from_attrs bodies, in both cfg variants; #[ts(skip)] on a field or variant decides alone (its serde list is not consulted); skip_until_next_comma, which makes an unknown serde key inert, leaves the parse buffer at the first top-level comma at or after its start (closure contract + loop invariant over a skeleton of syn\'s cursor).',
-             note='Not decided by proof: equivalence of the hand-written ts/serde key tables and the rest of the impl_parse! parser programs (macro_rules; opaque stubs in the units) — bounded stand-ins: a 1112-cell grid position x supported key x arrangement of inert keys through the real derive (expansions compared token for token), and really derived types with both spellings, keyword and unknown keys; both under default features and with `no-serde-warnings`. Trusted: Option::or contract, syn skeletons.'),
+             note='Not decided by proof: equivalence of the hand-written ts/serde key tables and the rest of the impl_parse! parser programs (macro_rules; opaque stubs in the units) — bounded stand-ins: a 1344-cell grid position x supported key x arrangement of inert keys through the real derive (expansions compared token for token), and really derived types with both spellings, keyword and unknown keys; both under default features and with `no-serde-warnings`. Trusted: Option::or contract, syn skeletons.'),
  'C11': dict(text='The emitted output_path() code returns `<name>.ts` by default, the given path + `<name>.ts` when export_to ends in `/`, the path verbatim otherwise (template lift); the kind of reference to a field type (name() vs inline()) and the dependency registered for it agree at the call sites of named / tuple / newtype / format_variant. Path agreement and bookkeeping: the path a type reports (default_output_path) normalises to the registry key / file location export_all writes, for every base directory spelling; export_and_merge changes no file but its own (ghost disk model); export_recursive visits the dependencies of every new type; Dependencies::push contributes the type and its generic arguments, append_from its dependencies; the six hand-written container impls (Option, Result, Vec, [T; N], HashMap, Range) forward visit_generics / visit_dependencies to every type argument (unit containers); export_all / export_all_to hand their directory down to every export_into.',
              note='Not decided: the generated visit_dependencies bodies (quote! templates) and therefore "exactly one file per reachable type".'),
  'C13': dict(text='Output-ordering mechanisms of merge() only: declarations are placed by sorted insertion and the import block is proved to be the rendering, in ascending order, of the set of (path, name) pairs whatever their arrival order (units merge, merge_imports); generate_imports renders its BTreeMap/BTreeSet in ascending order (unit gen_imports).',
@@ -23,7 +23,7 @@ CLAIMS = {
  'C15': dict(text='Containment, content and placement: parse_docs renders a doc block that is exactly one comment for every doc text (no `*/` can end it early) and is exactly the rendering of every doc attribute in order, the text itself with only backslashes inserted (lemma); FieldAttr::merge drops docs of flattened fields; from_attrs takes docs only from doc attributes; generate_decl places the block immediately before `export`; the emitted field entry is docs + name + type, i.e. a field doc sits immediately before its property.',
              note='Not decided: variant docs (not emitted). Known finding D7 for merged files with blank lines inside doc blocks. The wrapper templates of named() with repetitions are decided by a registered bounded stand-in (op:variant_literals), not by proof.'),
  'C16': dict(text='Panic-freedom of the hand-written kernels (no slice/unwrap/expect/unreachable can fire in the rename functions, absolute, diff_paths, import_path, tagged, from_variant) and the rejection tables: every documented incompatible attribute combination makes assert_validity return Err, and assert_validity Ok implies tagged() Ok so that the expect in from_variant cannot fire; the dispatchers type_def and enum_def (head) return that error before any formatter runs; the entry points return every error of parsing / struct_def / enum_def and turn it into compile_error! tokens (unit entry). All values, no bound.',
-             note='Not decided by proof: that the expansion compiles (bounded stand-in: a compile probe of 20 hand-written items and a 1182-cell shape x attribute x generics grid), unknown-key errors of the syn parsers (bounded stand-in: 30 items through the real entry point); the compile-time IsOption check. Context assumptions: enum_def validates before formatting variants; import_path is called with a file path that has a parent.'),
+             note='Not decided by proof: that the expansion compiles (bounded stand-in: a compile probe of 20 hand-written items and a 1263-cell shape x attribute x generics grid), unknown-key errors of the syn parsers (bounded stand-in: 30 items through the real entry point); the compile-time IsOption check. Context assumptions: enum_def validates before formatting variants; import_path is called with a file path that has a parent.'),
  'C17': dict(text='Error-not-panic for path failures: absolute/diff_paths/import_path return Err(CannotBeExported) exactly when the target climbs above the root (Io errors apart) and never panic; export_into returns CannotBeExported for non-exportable types before any fs call; export_and_merge leaves the registry unchanged on every failing fs call (all fault positions at once) and touches no other file; export_recursive / export_all_into return an error for a root that cannot be exported.',
              note='Not decided: "repeating the export produces the same directory contents" and "leaves every other file untouched" (file-system frame). Trusted: fs functions may fail at any call; std::path contracts.'),
 }
